@@ -139,3 +139,34 @@ PROPS["C10"] = {
     "level_text": "Bounded symbolic model checking of Ring and SyncRing against a FIFO slice model: values, Recap arguments and the absolute 32-bit position counter are symbolic, capacities/rotations/operation sequences are enumerated; for SyncRing one arbitrary step from an arbitrary invariant state (all 2^32 counter values, wrap-around included) is shown to give the model's result and re-establish the invariant, which covers histories of any length.",
     "level_note": "Trusted: go/ssa, gosym, z3, and the overlay constructor (in /verif/inpkg, injected with go/packages overlays; if the private fields are renamed the overlay fails to type-check and the check reports inconclusive, never a violation).",
 }
+
+# ------------------------------------------------------------------------------------------- C16
+c16 = "vh/c16."
+PROPS["C16"] = {
+    "patterns": ["./c16"],
+    "overlay": {"/repo/setz/zz_verif_hooks.go": "inpkg/setz_zz.go"},
+    "level": "model_checking",
+    "quick": [
+        J(c16 + "BitsSym", words=3, ops=2),
+        J(c16 + "BitsSym", words=2, ops=3),
+        J(c16 + "BitsEnum", ops=2),
+        J(c16 + "BitsEnum", ops=3, cands=5),
+        J(c16 + "DszEnum", ops=3, cands=8),
+        J(c16 + "DszSym", words=3, ops=3),
+        J(c16 + "BitsStep", na=2, nb=3),
+    ],
+    "thorough": [
+        J(c16 + "BitsEnum", ops=3),
+        J(c16 + "BitsSym", words=4, ops=4),
+        J(c16 + "BitsEnum", ops=4),
+        J(c16 + "DszEnum", ops=4),
+        J(c16 + "DszSym", words=4, ops=5),
+        J(c16 + "BitsStep", na=3, nb=4),
+    ],
+    "bounds": {"quick": "setz.Bits/Bitmap: 3 operations on two sets (Add/Remove/Diff/Intersect/Merge/Clone/Grow) with symbolic numbers < 192, membership of a fresh symbolic number and Len after each; enumeration (Iter/Range/All incl. early stop) after each of 2 operations over the word-boundary numbers {0,1,62,63,64,65,126,127,128,129,191,200} and of 3 operations over {63,64,0,127,128}; one operation from an arbitrary state: 0..2 fully symbolic 64-bit words, other operand 0..3 fully symbolic words, symbolic argument < 256 (inductive step); dsz.Bits: 3 operations symbolic and enumerated",
+               "thorough": "4 operations, 4 words; arbitrary-state step with 0..3 and 0..4 words"},
+    "outside": ["numbers >= 256", "enumeration (Iter/Range/All) over an arbitrary symbolic word (forks on every bit): enumeration is checked on the concrete boundary candidates only"],
+    "assumptions": ["in-package constructor VerifBits builds words + length=popcount (the representation invariant of Bits)", "math/bits.OnesCount64 is encoded by its SWAR formula on both sides"],
+    "level_text": "Bounded symbolic model checking of Bits/Bitmap/dsz.Bits against a branch-free set model; one arbitrary operation from an arbitrary representation-invariant state with fully symbolic 64-bit words is decided by pure bit-vector reasoning (membership of a fresh symbolic number, Len via popcount), covering operation sequences of any length; enumeration order is checked exhaustively over word-boundary values.",
+    "level_note": "Trusted: go/ssa, gosym (witness-validated), z3, overlay constructor in /verif/inpkg (falls back to inconclusive if private fields change).",
+}
